@@ -542,6 +542,9 @@ def check(plan: Dict[str, Any], execution: Dict[str, Any], props: Optional[Set[s
                     res.probe("restore_under_other_hashseed")
                 res.oracle_evals += 1
                 res.nontrivial = True
+                if obs.get("edges_set_lookup_failures"):
+                    res.violate("C19", "restored-edges-set-lookup", {"edges_not_found_by_an_equal_edge": obs["edges_set_lookup_failures"],
+                                                                     "other_hashseed": g["seed_changed"]}, si, r["i"])
                 for key in GRAPH_KEYS:
                     if obs.get(key) != exp.get(key):
                         res.violate("C19", f"restored-{key}-differs", {"n_got": len(obs.get(key) or []), "n_want": len(exp.get(key) or [])}, si, r["i"])
